@@ -185,6 +185,88 @@ func VerifC11Events() {
 	v.Assert("C11.one-milestone-per-stage", n == want)
 }
 
+// verifC11Request: one request of a service that keeps its event channel in a variable: the variable
+// gets a new channel, the entry point gets the variable's address.
+func verifC11Request(ep int, prof, data string, ch *chan e.Event) (evs []e.Event, closed, panicked bool) {
+	*ch = make(chan e.Event, 64)
+	current := *ch
+	panicked, _ = verifGuard(func() {
+		switch ep {
+		case 0:
+			Validate(prof, data, false, ch)
+		case 1:
+			ValidateWithConfiguration(prof, data, false, ch, c.TestValidationConfiguration{}, c.DefaultReportConfiguration())
+		default:
+			compiled, cerr := CompileProfile(prof, false, ch)
+			if cerr != nil {
+				return
+			}
+			ValidateCompiled(compiled, data, false, ch)
+		}
+	})
+	evs, closed = verifDrain(current)
+	return
+}
+
+// VerifC11Reuse: histories of requests. Each request's channel is closed when the request returns
+// and carries a prefix of the stage order - whether the requests keep their channel in one and the
+// same variable (re-made per request) or each in its own, and whatever happened to earlier requests.
+func VerifC11Reuse() {
+	prof := verifProfiles[v.Choice("profile", 2)]
+	var shared, own1, own2, own3 chan e.Event
+	sameVariable := v.Bool("sameVariable")
+	slots := []*chan e.Event{&own1, &own2, &own3}
+	for k := 0; k < 2; k++ {
+		slot := slots[k]
+		if sameVariable {
+			slot = &shared
+		}
+		v.Scope([]string{"r1", "r2", "r3"}[k])
+		evs, closed, _ := verifC11Request(v.Choice("entry", 3), prof, "<<data>>", slot)
+		v.Assert("C11.closed-on-return", closed)
+		v.Assert("C11.prefix-of-stage-order.length", len(evs) <= len(verifStageOrder))
+		for i, ev := range evs {
+			if i < len(verifStageOrder) {
+				v.Assert("C11.prefix-of-stage-order", ev.EventType == verifStageOrder[i])
+			}
+		}
+	}
+	v.Reach("two-requests")
+}
+
+// VerifC11ReuseNative: the same history with real inputs; a request whose decoding stage was
+// chosen to fail gets a text that is not JSON.
+func VerifC11ReuseNative() {
+	prof := verifProfiles[v.ReplayInt("profile")]
+	var shared, own1, own2, own3 chan e.Event
+	sameVariable := v.ReplayBool("sameVariable")
+	slots := []*chan e.Event{&own1, &own2, &own3}
+	for k := 0; k < 2; k++ {
+		slot := slots[k]
+		if sameVariable {
+			slot = &shared
+		}
+		scope := []string{"r1", "r2", "r3"}[k]
+		name := "entry"
+		if k > 0 {
+			name = "entry#" + string(rune('0'+k))
+		}
+		ep := 0
+		if _, asked := v.ReplayInput(name); asked {
+			ep = v.ReplayInt(name)
+		}
+		data := `{"@id": "http://x/a", "@type": "http://a.ml/vocabularies/apiContract#EndPoint"}`
+		if v.ReplayBool("flag:" + scope + ".decode.err") {
+			data = "not json"
+		} else if v.ReplayBool("flag:" + scope + ".flatten.err") {
+			data = `{"@context": 42, "@id": "x"}`
+		}
+		evs, closed, _ := verifC11Request(ep, prof, data, slot)
+		v.Assert("C11.closed-on-return", closed)
+		v.Assert("C11.prefix-of-stage-order.length", len(evs) <= len(verifStageOrder))
+	}
+}
+
 // VerifC11NilChannel: without a channel nothing is sent or closed and nothing panics
 // because of the missing channel.
 func VerifC11NilChannel() {
